@@ -147,6 +147,7 @@ CASES = [
     "np.asarray([1, 2, 3]).astype(float).mean(), np.asarray([1.0, 2.0, 3.0]).std()",
     "np.argmin(np.asarray([3.0, 1.0, 2.0])), np.argmin(np.abs(np.log(np.asarray([0.5, 1, 2, 2.5, 5, 10]) * 100.0 / 445.0)))",
     "np.log2(8.0), np.log10(1000.0), np.power(8, 1 / 3)",
+    "np.append(np.asarray([1.0, 2.0]), np.asarray([3.0, 4.0])[-1:]), np.append([[1, 2]], [[3, 4]], axis=0), np.append(np.asarray([]), [1]).dtype",
     "[a.shape for a in np.meshgrid([1, 2, 3], [4, 5], indexing='ij', sparse=True)], [a.shape for a in np.meshgrid([1, 2, 3], [4, 5], sparse=True)], np.meshgrid([1, 2], [4, 5, 6], indexing='ij', sparse=True)[1]",
     "np.squeeze(np.asarray([[1.0, 2.0]])), np.squeeze(np.asarray([[1.0], [2.0]])).shape, np.squeeze(np.asarray([[3.0]])).shape, np.asarray([[1, 2]]).squeeze(axis=0)",
     "np.fromiter(iter([1, 2, 3]), dtype=float), np.fromiter((x * x for x in range(4)), dtype=int, count=2), np.fromiter(iter([]), dtype=float).shape",
